@@ -77,10 +77,13 @@ class Gen:
             if k < 0.90:
                 n = r.choice(list(EFUN))
                 args = []
+                # `defined(X)` inside a macro ARGUMENT: cpp macro-expands X first, OCCA does not (finding F69)
+                saved, self.in_macro_body = self.in_macro_body, True
                 for i in range(EFUN[n]):
                     if i:
                         args.append(",")
                     args += self.expr("S", 1)
+                self.in_macro_body = saved
                 return [n, "("] + args + [")"]
             return ["("] + self.expr("S", 1) + [")"]
         if t == "U":
@@ -541,6 +544,7 @@ KNOWN_REPLAYS = [
     ["F f x : [ x ]", "D E :", "T f E ( 1 )", "end"],                                # F65 the token after a function-like name is expanded first
     ["D P : 1 , 2", "F f x : [ x ]", "T f ( P )", "end"],                            # F67 arguments are split AFTER they were expanded
     ["D E :", "F f x : [ x ]", "T f ( E )", "end"],                                  # F68 an argument that expands to nothing is "missing"
+    ["D A : q", "F id a : a", "IF id ( defined ( A ) )", "T yes", "ENDIF", "end"],   # F69 defined(X) inside a macro argument
     ["IF 1 ? 0 : 1 ? 1 : 1", "T a", "ENDIF", "T c", "end"],                           # N5 (C15's) nested ?: is left-nested
     ["IF 0 + ! 1", "T a", "ENDIF", "IF 1 - - 1 == 2", "T b", "ENDIF", "end"],        # N3 (C15's) binary op before a unary op
     ["IF ~ ( 1 < 2 )", "T a", "ENDIF", "T c", "end"],                                # C14's: ~bool is !bool
